@@ -672,3 +672,11 @@ def oracle(lines, impl):
     if os.environ.get("CV_CALIB"):
         print("CALIB C07", {k: round(v, 5) for k, v in sorted(CALIB.items())})
     return fails
+
+# --- deep theorems (second pass; modules written in their own files, wired here by the lead)
+PROOF_MODULES = PROOF_MODULES + ['Compute.Props.C07Romberg']
+REQUIRED_THEOREMS = REQUIRED_THEOREMS + ['Cv.C07R.rombergRow_eq', 'Cv.C07R.romberg_of_no_stop', 'Cv.C07R.romberg_of_first_stop', 'Cv.C07R.romberg_eps0', 'Cv.C07R.romberg_none', 'Cv.C07R.R_add', 'Cv.C07R.R_smul', 'Cv.C07R.R_swap', 'Cv.C07R.R_self', 'Cv.C07R.romberg_add', 'Cv.C07R.romberg_swap', 'Cv.C07R.romberg_self', 'Cv.C07R.rich_expansion', 'Cv.C07R.col0_eq_trapz', 'Cv.C07R.R_exact', 'Cv.C07R.R_exact_real', 'Cv.C07R.romberg_exact', 'Cv.C07R.romberg_exact_horner', 'Cv.C07R.romberg_exact_any_eps']
+_np = list(NOT_PROVED)
+_np[1] = None
+_np[2] = None
+NOT_PROVED = [x for x in _np if x is not None]
